@@ -75,6 +75,10 @@ inductive PresEv where
   | disconnect (actor : Nat)
   | fetch (actor req : Nat)                                                                     -- 300
   | sendIM (actor req target : Nat) (msg : Bytes) (quote : Option Bytes)                        -- 108
+  /-- `keepaliveHandler`: the user has been idle for more than 300 s and is not yet marked away. -/
+  | away (actor : Nat)
+  /-- the tail of `handleTransaction` for any request other than a keep-alive: an away user is back. -/
+  | wake (actor : Nat)
 deriving Repr, DecidableEq
 
 /-- The four presence fields in the order of the login / agreed notification. -/
@@ -185,6 +189,22 @@ def presSendIM (w : PresWorld) (c : Client) (req target : Nat) (msg : Bytes) (qu
     let autoR := if t.autoReply.length > 0 then [mkTran 104 c.id (imFields t.autoReply t 1)] else []
     (w, (([first] ++ autoR ++ [mkReply c req []]).map fun o => (o, Note.other)))
 
+/-- `keepaliveHandler` for one client: set the away flag and tell everybody (`SendAll`), unless already away. -/
+def presAway (w : PresWorld) (c : Client) : PresWorld × List POut :=
+  if flagBit c.flags 0 then (w, []) else
+  let c' := { c with flags := setFlag c.flags 0 true }
+  let w1 : PresWorld := { w with reg := w.reg.modify c.id (fun _ => c') }
+  let outs := w1.reg.clients.map (changeTo 301 changeFieldsC c')
+  (w1.emit outs, outs)
+
+/-- `handleTransaction` after a non-keep-alive request of an away user: clear the flag and tell everybody. -/
+def presWake (w : PresWorld) (c : Client) : PresWorld × List POut :=
+  if !flagBit c.flags 0 then (w, []) else
+  let c' := { c with flags := setFlag c.flags 0 false }
+  let w1 : PresWorld := { w with reg := w.reg.modify c.id (fun _ => c') }
+  let outs := w1.reg.clients.map (changeTo 301 changeFieldsC c')
+  (w1.emit outs, outs)
+
 def newPresClient (login acctName access name icon : Bytes) (announced : Bool) : Client :=
   { id := 0, conn := 0, login := login, acctName := acctName, access := access, name := name, icon := icon,
     flags := if accessBit access 22 then 2 else 0, autoReply := [], announced := announced }
@@ -202,6 +222,8 @@ def PresWorld.step (w : PresWorld) (e : PresEv) : PresWorld × List POut :=
   | .disconnect a => match w.reg.get a with | none => (w, []) | some c => presDisconnect w c
   | .fetch a r => match w.reg.get a with | none => (w, []) | some c => presFetch w c r
   | .sendIM a r t m q => match w.reg.get a with | none => (w, []) | some c => presSendIM w c r t m q
+  | .away a => match w.reg.get a with | none => (w, []) | some c => presAway w c
+  | .wake a => match w.reg.get a with | none => (w, []) | some c => presWake w c
 
 def PresWorld.after (w : PresWorld) (es : List PresEv) : PresWorld := es.foldl (fun w e => (w.step e).1) w
 
@@ -705,6 +727,34 @@ theorem PresWorld.touches_inv (ac : Bytes) (ids : List Nat) (st : PresWorld × L
 
 theorem PresWorld.step_inv {w : PresWorld} (h : w.Inv) (e : PresEv) (hok : e.ok w) : (w.step e).1.Inv := by
   cases e with
+  | away a =>
+    simp only [PresWorld.step]
+    split
+    · exact h
+    · rename_i c hg
+      have hc := Registry.get_some hg
+      simp only [presAway]
+      split
+      · exact h
+      · have := h.modify_broadcast (c := c) (c' := { c with flags := setFlag c.flags 0 true }) hc.1 rfl rfl (fun _ => true)
+          (by intro d _ hs; cases hs) (fun d => mkTran 301 d.id (changeFieldsC { c with flags := setFlag c.flags 0 true }))
+          (fun _ => rfl) [] (by intro p hp; cases hp)
+        rw [List.append_nil, List.filter_eq_self.mpr (fun _ _ => rfl)] at this
+        exact this
+  | wake a =>
+    simp only [PresWorld.step]
+    split
+    · exact h
+    · rename_i c hg
+      have hc := Registry.get_some hg
+      simp only [presWake]
+      split
+      · exact h
+      · have := h.modify_broadcast (c := c) (c' := { c with flags := setFlag c.flags 0 false }) hc.1 rfl rfl (fun _ => true)
+          (by intro d _ hs; cases hs) (fun d => mkTran 301 d.id (changeFieldsC { c with flags := setFlag c.flags 0 false }))
+          (fun _ => rfl) [] (by intro p hp; cases hp)
+        rw [List.append_nil, List.filter_eq_self.mpr (fun _ _ => rfl)] at this
+        exact this
   | connect l an ac ic =>
     simp only [PresWorld.step, presLogin]
     split
